@@ -766,7 +766,7 @@ def random_usermap(rng):
     cursor = rng.randint(0, 30)
     ident = 1
     for _ in range(rng.randint(1, 3)):
-        length = rng.choice([4, 8, 16, 32])
+        length = rng.choice([4, 8, 16, 32, 32, 70, 100])
         win = rng.choice(["hi32", "hi32", "full64", "full64", "half64"])
         mirror = rng.random() < 0.5
         need = length * (2 if mirror else 1) + 3
